@@ -315,9 +315,7 @@ def streaming_evaluated(repo: Repo, ci, err_attr: str, tot_attr: str, attrs0: Di
             raise Unfoldable(f"rate is not a number: {v!r}")
         return float(v)
 
-    groups = [("real", STREAM_BATCHES)]
-    if any(isinstance(c_, ast.Call) and (call_name(c_) or "").split(".")[-1] == "is_complex" for c_ in ast.walk(upd.node)):
-        groups.append(("complex", STREAM_COMPLEX))
+    groups = [("real", STREAM_BATCHES), ("complex", STREAM_COMPLEX)]
     try:
         for kind, batches in groups:
             for k in range(1, len(batches) + 1):
@@ -504,8 +502,31 @@ def rule_benchmark(repo: Repo, rep: Report) -> int:
     return n
 
 
+def rule_count_dtype(repo: Repo, rep: Report) -> int:
+    """Errors are counted in a type that holds every count exactly: a mismatch mask is summed as it is (integer result) or
+    after a cast to a fixed wide type.  A cast whose target type is taken from an input (`.to(x.dtype)`, `.type_as(x)`)
+    counts in half precision for half-precision inputs: float16 holds no odd integer above 2048, bfloat16 none above 256."""
+    n = 0
+    for file, cname in ((BER, "BitErrorRate"), (BLER, "BlockErrorRate")):
+        ci = repo.cls(file, cname)
+        helpers = [f_ for f_ in ci.module.functions.values()]
+        for fi in [m_ for nm, m_ in ci.methods.items() if nm in ("forward", "update") or nm.startswith("_")] + helpers:
+            params = {p_ for p_ in fi.params if p_ not in ("self", "cls")}
+            casts = [c for c in ast.walk(fi.node) if isinstance(c, ast.Call) and isinstance(c.func, ast.Attribute) and c.func.attr in ("to", "type", "type_as")]
+            bad = [c for c in casts if any(isinstance(x, ast.Name) and x.id in params for a in list(c.args) + [k.value for k in c.keywords] for x in ast.walk(a)) and not any("device" in unparse(a) for a in list(c.args) + [k.value for k in c.keywords])]
+            if not casts and not bad:
+                continue
+            n += 1
+            if bad:
+                rep.violation("ACC", fi, f"count dtype: {unparse(bad[0])[:80]}", "the mask of mismatches is converted to the dtype of an input before it is summed: for float16 / bfloat16 inputs the count is accumulated in half precision (no odd count above 2048 / 256), so the one-shot rate is not errors / total and disagrees with the accumulated one", node=bad[0])
+            else:
+                rep.ok("ACC", fi, f"count dtype: {len(casts)} cast(s), none to an input's dtype", "counts are taken in a fixed type", nontrivial=False)
+    return n
+
+
 def run(repo: Repo, rep: Report, tier: str) -> None:
-    n = analyse_metric(repo, rep, BER, "BitErrorRate", {})
+    n = rule_count_dtype(repo, rep)
+    n += analyse_metric(repo, rep, BER, "BitErrorRate", {})
     n += analyse_metric(repo, rep, BLER, "BlockErrorRate", {"self.reduction == 'none'": False, "self.reduction == 'sum'": False})
     n += rule_blocks(repo, rep)
     n += rule_aliases(repo, rep)
